@@ -16,19 +16,19 @@ import (
 
 // runtime families, by the import path the source names
 var familyOfImport = map[string]string{
-	"github.com/gogo/protobuf/proto":                         "gogo",
-	"github.com/gogo/protobuf/jsonpb":                        "gogo",
-	"github.com/gogo/protobuf/types":                         "gogo",
-	"github.com/golang/protobuf/proto":                       "v1",
-	"github.com/golang/protobuf/jsonpb":                      "v1",
-	"google.golang.org/protobuf/proto":                       "v2",
-	"google.golang.org/protobuf/encoding/protojson":          "v2",
-	"google.golang.org/protobuf/encoding/prototext":          "v2",
-	"google.golang.org/protobuf/reflect/protoreflect":        "v2",
-	"google.golang.org/protobuf/reflect/protoregistry":       "v2",
-	"google.golang.org/protobuf/types/dynamicpb":             "v2",
-	"google.golang.org/protobuf/runtime/protoiface":          "v2",
-	"google.golang.org/protobuf/runtime/protoimpl":           "v2",
+	"github.com/gogo/protobuf/proto":                   "gogo",
+	"github.com/gogo/protobuf/jsonpb":                  "gogo",
+	"github.com/gogo/protobuf/types":                   "gogo",
+	"github.com/golang/protobuf/proto":                 "v1",
+	"github.com/golang/protobuf/jsonpb":                "v1",
+	"google.golang.org/protobuf/proto":                 "v2",
+	"google.golang.org/protobuf/encoding/protojson":    "v2",
+	"google.golang.org/protobuf/encoding/prototext":    "v2",
+	"google.golang.org/protobuf/reflect/protoreflect":  "v2",
+	"google.golang.org/protobuf/reflect/protoregistry": "v2",
+	"google.golang.org/protobuf/types/dynamicpb":       "v2",
+	"google.golang.org/protobuf/runtime/protoiface":    "v2",
+	"google.golang.org/protobuf/runtime/protoimpl":     "v2",
 }
 
 var familyOfConst = map[string]string{"MessageTypeGogo": "gogo", "MessageTypeGoogleV1": "v1", "MessageTypeGoogle": "v2"}
@@ -110,10 +110,10 @@ func isMsgTypeExpr(info *types.Info, e ast.Expr, vars map[types.Object]bool) boo
 }
 
 type msgSwitch struct {
-	sw       *ast.SwitchStmt
-	fn       *core.FuncInfo
-	arms     map[string]*ast.CaseClause // by MessageType constant name
-	deflt    *ast.CaseClause
+	sw    *ast.SwitchStmt
+	fn    *core.FuncInfo
+	arms  map[string]*ast.CaseClause // by MessageType constant name
+	deflt *ast.CaseClause
 }
 
 // findRegions extracts the family regions and MsgType switches of the given functions.
